@@ -515,6 +515,15 @@ def install_library_shims():
     mysensors.task.threading = ns
     serial.threaded.threading = ns
     mysensors.task.time = types.SimpleNamespace(sleep=_pump_idle_sleep, time=vtime)
+    # job durations are an environment answer: every job looks slow (0.2 s), so that the code that only runs
+    # for slow jobs is part of the explored behaviour
+    ticks = [0.0]
+
+    def slow_timer():
+        ticks[0] += 0.2
+        return ticks[0]
+
+    mysensors.task.timer = slow_timer
     clock = types.SimpleNamespace(sleep=coop_sleep, time=vtime)
     mysensors.gateway_serial.time = clock
     mysensors.gateway_tcp.time = clock
